@@ -345,6 +345,75 @@ pub fn run(cfg: &Cfg) -> i32 {
         applied.fetch_add(st.applied, Ordering::Relaxed);
         checks.fetch_add(st.clones_alive_checks, Ordering::Relaxed);
     });
+    // ---------- process-level leg: /snapshot and /rollback of the real REPL
+    let mut repl_runs = 0u64;
+    {
+        use crate::repl_leg::*;
+        let setup: Vec<&str> = if quick { vec!["", "|12 34 56| var b", "[ 1 2 ] var v 5 var g", ": w 1 ; { 1 \"k\" } var m"] } else { vec!["", "|12 34 56| var b", "[ 1 2 ] var v", "5 var g", ": w 1 ;", "{ 1 \"k\" } var m", "late q : u q ;", "|12 34 56| var b [ 1 2 ] var v 5 var g : w 1 ; { 1 \"k\" } var m"] };
+        let muts: Vec<&str> = if quick {
+            vec!["|ff| b bitstr-append ! b", "b bitstr-not ! b", "3 v push ! v", "g 1 + ! g", ": w 2 ;", "m 2 \"j\" insert ! m", "7 8", "3 2 d2-resize 7 d2-color! 1 1 d2-data!"]
+        } else {
+            vec!["|ff| b bitstr-append ! b", "b bitstr-not ! b", "3 v push ! v", "g 1 + ! g", ": w 2 ;", "m 2 \"j\" insert ! m", "m \"k\" remove ! m", "7 8", "drop", ": q 5 ;", "9 var g", "u8 u8", "3 2 d2-resize 7 d2-color! 1 1 d2-data!", "1 0 /", "foo"]
+        };
+        let probes = ["depth", "b", "v", "m", "g", "w", "u", "offset", "d2-width d2-height 1 1 d2-data"];
+        let mut jobs: Vec<(Vec<String>, Vec<String>, bool)> = vec![];
+        for g in &setup {
+            for m1 in &muts {
+                for m2 in &muts {
+                    let mk = |with: bool| -> Vec<String> {
+                        let mut v = vec!["/repl".to_string()];
+                        if !g.is_empty() {
+                            v.push(g.to_string());
+                        }
+                        if with {
+                            v.push("/snapshot".into());
+                            v.push(m1.to_string());
+                            v.push(m2.to_string());
+                            v.push("/rollback".into());
+                        }
+                        v.push(probe_line(""));
+                        for q in probes {
+                            v.push(q.to_string());
+                        }
+                        v
+                    };
+                    jobs.push((mk(true), mk(false), m1.contains("d2-") || m2.contains("d2-")));
+                }
+            }
+        }
+        let cnt = AtomicU64::new(0);
+        par_run(cfg.threads, jobs.len(), 2, |_t, pull| {
+            while let Some(rg) = pull() {
+                for j in rg {
+                    let (with, without, d2) = &jobs[j];
+                    cnt.fetch_add(2, Ordering::Relaxed);
+                    match (run_repl(with), run_repl(without)) {
+                        (Ok(a), Ok(b)) => {
+                            if a != b {
+                                let key = if *d2 { "host-object:d2-canvas-shared" } else { "repl:rollback-does-not-restore-snapshot" };
+                                rep.report_w(key, with.len() as u64, || {
+                                    jo(vec![
+                                        ("kind", js("repl-snapshot-rollback")),
+                                        ("lines", J::A(with.iter().map(|l| js(l.clone())).collect())),
+                                        ("output_after_marker", js(truncate(&a, 400))),
+                                        ("output_without_the_snapshot_section", js(truncate(&b, 400))),
+                                    ])
+                                });
+                            }
+                        }
+                        (a, b) => {
+                            cleanup();
+                            machinery_error(&format!("REPL leg: {:?} {:?}", a.err(), b.err()))
+                        }
+                    }
+                }
+            }
+        });
+        repl_runs = cnt.load(Ordering::Relaxed);
+        cleanup();
+    }
+    ev.add("repl_process_runs", ji(repl_runs));
+
     ev.states = nodes.load(Ordering::Relaxed);
     ev.transitions = applied.load(Ordering::Relaxed);
     ev.traces = applied.load(Ordering::Relaxed);
